@@ -100,6 +100,7 @@ func run(t *testing.T, tape *simrt.Tape) *hx.Outcome {
 	redirect := c(2) == 0
 	expireDen := []int{0, 3}[c(2)]
 	withMirror := c(2) == 0
+	hostShape := c(4)
 	nLayerTasks := 1 + c(3)
 	criFailDen := []int{0, 5}[c(2)]
 	hdrReg := fmt.Sprintf("HDR-reg-%x", tape.Seed&0xffffff)
@@ -319,10 +320,21 @@ func run(t *testing.T, tape *simrt.Tape) *hx.Outcome {
 		})
 		rcfg := resolver.Config{RequestTimeoutSec: 20, Host: map[string]resolver.HostConfig{}}
 		if withMirror {
-			rcfg.Host["reg.example"] = resolver.HostConfig{Mirrors: []resolver.MirrorConfig{
-				{Host: "mirror.example", Header: map[string]any{"X-Mirror-Key": hdrMirror}},
-				{Host: "reg.example", Header: map[string]any{"X-Reg-Key": []any{hdrReg}}},
-			}}
+			// the host tables come in every shape: a mirror with or without its own header table
+			// before an origin entry with or without one (an origin that is not listed is appended
+			// by the resolver, without headers)
+			var ms []resolver.MirrorConfig
+			switch hostShape {
+			case 0:
+				ms = []resolver.MirrorConfig{{Host: "mirror.example", Header: map[string]any{"X-Mirror-Key": hdrMirror}}, {Host: "reg.example", Header: map[string]any{"X-Reg-Key": []any{hdrReg}}}}
+			case 1:
+				ms = []resolver.MirrorConfig{{Host: "mirror.example", Header: map[string]any{"X-Mirror-Key": hdrMirror}}}
+			case 2:
+				ms = []resolver.MirrorConfig{{Host: "mirror.example", Header: map[string]any{"X-Mirror-Key": hdrMirror}}, {Host: "reg.example"}}
+			default:
+				ms = []resolver.MirrorConfig{{Host: "mirror.example"}, {Host: "reg.example", Header: map[string]any{"X-Reg-Key": hdrReg}}}
+			}
+			rcfg.Host["reg.example"] = resolver.HostConfig{Mirrors: ms}
 		} else {
 			rcfg.Host["reg.example"] = resolver.HostConfig{Mirrors: []resolver.MirrorConfig{{Host: "reg.example", Header: map[string]any{"X-Reg-Key": hdrReg}}}}
 		}
